@@ -75,6 +75,13 @@ def rst(
     if nl or ("\n" in answer and nl is None):
         answer += "\n" + " " * indent
 
+    # The output is placed inside a triple-quoted (raw) string literal:
+    # it must not contain the terminator, and it must not end in a
+    # backslash, which would escape the closing quotes.
+    answer = answer.replace('"""', '\\"\\"\\"')
+    if answer.endswith("\\"):
+        answer += " "
+
     # If the text ends in a double-quote, append a period.
     # This ensures that we do not get a parse error when this output is
     # followed by triple-quotes.
